@@ -42,14 +42,14 @@ SCHEMES = D.SCHEMES_ALL + NEAR_THRESHOLD
 
 RULE = ("API cases: one case = (dataset, naming, k schemes); every one of 7 starter configurations is run and every "
         "returned ranking is tested against all its single-element moves. quick: all datasets of <= 2 rankings over "
-        "R(3) x 2 rotating schemes (rotating naming), 500 seeded datasets 3<=n<=7, m<=5 x 4 rotating schemes out of "
+        "R(3) x 2 rotating schemes (rotating naming), 700 seeded datasets 3<=n<=7, m<=5 x 4 rotating schemes out of "
         "%d (presets, multiples, generic, boundary, 5 near-threshold scalings) + 1 random grid scheme. Kernel cases: "
         "one case = 6 random datasets (n<=7) -> cost tables, 5 random dense id vectors each, every element: "
         "_compute_delta_costs / searches / moves against the oracle, then _improve_one_ranking; compiled and py_func. "
         "Non-trivial = universe >= 2 elements and a consensus was returned (API), n >= 2 (kernel); distinct = distinct "
         "(dataset, naming, scheme, configuration) resp. (table, vector)." % len(SCHEMES))
-SCOPE = {"quick": "701 exhaustive datasets (n<=3, m<=2) x 2 schemes + 500 sampled (n<=7, m<=5) x 5 schemes, "
-                  "7 configurations; 160 kernel cases x 6 tables x 5 vectors x 2 execution modes (n<=7)",
+SCOPE = {"quick": "701 exhaustive datasets (n<=3, m<=2) x 2 schemes + 700 sampled (n<=7, m<=5) x 5 schemes, "
+                  "7 configurations; 320 kernel cases x 6 tables x 5 vectors x 2 execution modes (n<=7)",
          "thorough": "all datasets n<=3 m<=3 (18.3k) x 1 scheme, n=4 m<=2 (22.6k) x 1 scheme, 5000 sampled (n<=7, "
                      "m<=5) x 5 schemes, 7 configurations; 1500 kernel cases"}
 EXHAUSTIVE = {"quick": False, "thorough": False}
@@ -61,7 +61,7 @@ def gen_cases(tier, seed):
     quick = tier == "quick"
     kinds = list(D.NAME_KINDS)
     ns = len(SCHEMES)
-    for i in range(160 if quick else 1500):
+    for i in range(320 if quick else 1500):
         yield {"kind": "kernel", "seed": seed * 7907 + i, "tables": 6, "vectors": 5, "nmax": 7}
     idx = 0
     for d in D.all_datasets(3, 2 if quick else 3):
@@ -77,7 +77,7 @@ def gen_cases(tier, seed):
                 idx += 1
     rng = random.Random(seed * 1299709 + 8)
     seen = set()
-    for i in range(500 if quick else 5000):
+    for i in range(700 if quick else 5000):
         d = D.random_dataset(rng, 7, 5, complete=(i % 5 == 0), n_min=3)
         kind = kinds[i % len(kinds)]
         sch = [SCHEMES[(4 * i + j) % ns] for j in range(4)] + D.grid_schemes(rng, 1)
